@@ -28,19 +28,45 @@ CONTRACT (the property's own oracle, evaluated on the REAL class).
   fresh.mapping_trie == s.mapping_trie, and for the literal construction MappingSchema(deepcopy(s.mapping),
   dialect=dialect, normalize=cfg.normalize) as well (registered names are fixpoints of the dialect's normalisation).
 
-  A difference is reported only if it shows up when the probe is put ALONE to a new replay of the sequence (probes fill
-  caches too; the reported input is always a complete reproducer).  If it only shows up after another probe, that
-  probe is appended to the reported sequence as the lookup it is.
+  Probes fill caches too.  Between two probes of one sequence the derived state (the four cache dicts, _depth,
+  _supported_table_args) is put back to what the sequence left (shallow copies), so every probe meets the
+  post-sequence state; independently of that, a difference is reported only if it shows up when the probe is put
+  ALONE to a new replay of the sequence (the reported input is always a complete reproducer).  If it only shows up
+  after another probe, that probe is appended to the reported sequence as the lookup it is.
 
   States reached through add_table(match_depth=False) with a part count different from the schema's depth hold a
   mixed-depth mapping that the validating constructor rejects: the oracle is undefined there; differences are counted
   under observations["mixed_depth_differences"], not as violations.
+
+ENUMERATOR (deterministic, exhaustive over the stated alphabets).  Universe: catalogs {c1,c2} x dbs {d1,d2} x tables
+  {t,u}; column sets A={a:int} B={b:text} AB={a:int,b:text} C={a:decimal} N=None; names T1=[c1.][d1.]t,
+  T2=[c1.]d2.t (depth>=2), T3=c2.d1.t (depth 3), U=[c1.][d1.]u.  Nested alphabets per configuration (function
+  alphabet(); sizes at depth 3: TINY 6 < SMALL 9 < MED 20 < FULL 104):
+    TINY  add(T1,B) add(T2|U,B) column_names("t") get_column_type("t","a") has_column("t", Column(quoted "a"))
+          find(t as stored)
+    SMALL + add(T1,A) add(T1,None) column_names(T1)
+    MED   + add(T1,C) add(T1,AB) add(U,A) add(T3,B) column_names("d1.t") get_column_type(T1,"a")
+          get_column_type(quoted t, quoted a, dialect=OTHER[dialect]) has_column("t","a") find(T1) find(t,
+          ensure_data_types=True) column_names(exp.Table t)
+    FULL  + add of every universe table x {A,B,None} (T1: all five), T1 spelled upper / quoted-lower / quoted-upper,
+          column mapping given as str / list, table given as exp.Table, match_depth=False (same depth, fewer parts,
+          more parts), column_names + find on every partially and fully qualified universe name, and on "t" / "d1.t" /
+          T1: spelling variants, exp.Table / exp.Column arguments (quoted and not), upper-case column, dialect=OTHER
+  quick   : initial one-table: FULL len<=2, MED len 3, SMALL len 4;  initial empty: FULL len<=2, MED len 3
+  thorough: initial one-table: FULL len<=2, MED len 3-4, SMALL len 5, TINY len 6;  empty: FULL<=2, MED 3, SMALL 4
+  x depth {1,2,3} x dialect {None, snowflake, postgres, bigquery} x normalize {True, False}.
+  Probe set (functions probes() / compact_probes()): after sequences of length <= 1 the full set (column_names on
+  every name and spelling variant T/t/"T"/"t", exp.Table and exp.Column arguments, dialect=OTHER, find with
+  raise_on_missing both ways and ensure_data_types); after longer sequences the compact subset of it (12 lookups
+  that parse text + all find probes).
 
 Kinds (first that applies):  missed-ambiguity (a fresh schema finds the probe's name ambiguous, s does not say so),
   spurious-ambiguity (s raises Ambiguous, fresh does not), stale-after-add / stale-after-update (s still gives the
   answer that was right before the last mapping-changing add_table, which added / updated a table),
   exception-differs, value-differs.
 Keys: c18:<function>:<kind>:<depth>:<dialect>:<partially|fully>-qualified
+Every entry also carries "cause" (triage aid, not part of the key and never part of a verdict): the first derived
+state whose emptying right before the probe makes s agree with the fresh schema.
 """
 import copy
 import json
@@ -588,10 +614,32 @@ def check_sequence(cfg, ops, plist, stats, viols):
         vkey = f"c18:{FUNC[probe[0]]}:{kind}:{cfg[0]}:{dname(cfg[1])}:{_qual(cfg, probe)}-qualified"
         viols.append({
             "key": vkey,
+            "cause": diagnose(cfg, rep_ops, probe, f_ans),
             "what": f"after {len(rep_ops)} op(s) {FUNC[probe[0]]}{tuple(probe[1:])} answered {s_ans}; a fresh schema over the same mapping answers {f_ans}",
             "input": {"depth": cfg[0], "dialect": cfg[1], "normalize": cfg[2], "initial": cfg[3], "ops": [list(o) for o in rep_ops],
                       "probe": list(probe), "mapping": json.loads(mkey(s3))},
         })
+
+
+def diagnose(cfg, ops, probe, f_ans):
+    """triage aid only (never decides a verdict): the first piece of derived state whose emptying, right before the
+    probe, makes the replayed schema agree with the fresh one"""
+    for attr in _DERIVED:
+        s, _, _, _ = replay_ops(cfg, ops)
+        getattr(s, attr).clear()
+        if execute(s, probe, cfg) == f_ans:
+            return attr
+    s, _, _, _ = replay_ops(cfg, ops)
+    s._depth = 0
+    s._supported_table_args = tuple()
+    if execute(s, probe, cfg) == f_ans:
+        return "_depth/_supported_table_args"
+    s, _, _, _ = replay_ops(cfg, ops)
+    for attr in _DERIVED:
+        getattr(s, attr).clear()
+    if execute(s, probe, cfg) == f_ans:
+        return "several-caches"
+    return "mapping_trie-or-other"
 
 
 def _differs_alone(cfg, ops, probe):
@@ -642,14 +690,23 @@ def work(item):
                 for op in reversed(alpha):
                     stack.append(seq + [op])
     # keep <= 3 shortest examples per key
-    by, counts = {}, {}
+    by, counts, causes = {}, {}, {}
     for v in viols:
         counts[v["key"]] = counts.get(v["key"], 0) + 1
+        ck = v["key"] + " <- " + v["cause"]
+        causes[ck] = causes.get(ck, 0) + 1
         lst = by.setdefault(v["key"], [])
         lst.append(v)
         lst.sort(key=lambda x: (len(x["input"]["ops"]), json.dumps(x["input"], default=repr)))
         del lst[3:]
-    return {"stats": dict(stats), "viol": [v for k in sorted(by) for v in by[k]], "counts": counts}
+    # one example per (key, cause) is kept too, so that every cause behind a key has a reproducer
+    extra = {}
+    for v in viols:
+        ck = (v["key"], v["cause"])
+        if ck not in extra or len(v["input"]["ops"]) < len(extra[ck]["input"]["ops"]):
+            extra[ck] = v
+    return {"stats": dict(stats), "viol": [v for k in sorted(by) for v in by[k]], "counts": counts, "causes": causes,
+            "cause_examples": list(extra.values())}
 
 
 def self_check():
@@ -693,9 +750,15 @@ def run(tier, seed):
     else:
         order.sort(key=lambda i: (i * 2654435761) & 0xFFFFFFFF)
     res = harness.pool_map(work, [items[i] for i in order], chunksize=1)
-    stats, counts, by = {}, {}, {}
+    stats, counts, by, causes, cause_ex = {}, {}, {}, {}, {}
     mixed_example = None
     for r in res:
+        for k, v in r["causes"].items():
+            causes[k] = causes.get(k, 0) + v
+        for v in r["cause_examples"]:
+            ck = (v["key"], v["cause"])
+            if ck not in cause_ex or len(v["input"]["ops"]) < len(cause_ex[ck]["input"]["ops"]):
+                cause_ex[ck] = v
         for k, v in r["stats"].items():
             if k == "mixed_depth_example":
                 if v is not None and (mixed_example is None or len(json.dumps(v)) < len(json.dumps(mixed_example))):
@@ -711,8 +774,16 @@ def run(tier, seed):
             del lst[3:]
     violations = []
     for k in sorted(by):
-        for v in by[k]:
+        shown = list(by[k])
+        for (kk, cause), v in sorted(cause_ex.items()):
+            if kk == k and all(x["cause"] != cause for x in shown):
+                shown.append(v)  # a cause not represented among the three shortest examples
+        for v in shown:
             violations.append(dict(v, count=counts[k]))
+    by_cause = {}
+    for ck, n in causes.items():
+        c = ck.split(" <- ")[1]
+        by_cause[c] = by_cause.get(c, 0) + n
     sizes = {}
     for cfg in configs():
         al = alphabet(cfg)
@@ -740,6 +811,8 @@ def run(tier, seed):
         "samples": [[list(items[i][0]), items[i][1:]] for i in (0, len(items) // 2, len(items) - 1)],
         "violations": violations,
         "violation_counts": dict(sorted(counts.items())),
+        "violation_causes": dict(sorted(causes.items())),
+        "violations_by_cause": by_cause,
         "contract_evaluations": {
             "MappingSchema.column_names": stats.get("fn:cn", 0),
             "MappingSchema.get_column_type": stats.get("fn:gct", 0),
